@@ -1022,3 +1022,51 @@ func init() {
 		}
 	})
 }
+
+// ---------- scenario 11: two TrackNewOperation calls for one CID that overlap ----------
+
+func init() {
+	mk := func(typB optracker.OperationType) e1.Scenario {
+		return func(t *testing.T) *e1.Exec {
+			ctx := context.Background()
+			c := clus.Cid("a")
+			opt := optracker.NewOperationTracker(ctx, clus.PID(0), "p0")
+			h := newHist()
+			var opA, opB *optracker.Operation
+			return &e1.Exec{
+				Threads: map[string]func(){
+					"T0": func() {
+						h.do(0, otIn{Op: "track", Typ: optracker.OperationPin, ID: 1}, func() interface{} {
+							opA = opt.TrackNewOperation(ctx, api.PinCid(c), optracker.OperationPin, optracker.PhaseQueued)
+							return otOut{Created: opA != nil}
+						})
+					},
+					"T1": func() {
+						h.do(1, otIn{Op: "track", Typ: typB, ID: 2}, func() interface{} {
+							opB = opt.TrackNewOperation(ctx, api.PinCid(c), typB, optracker.PhaseQueued)
+							return otOut{Created: opB != nil}
+						})
+					},
+				},
+				After: func(runErr error) (string, []e1.Finding) {
+					var fs []e1.Finding
+					if !porcupine.CheckOperations(otModel, h.ops) {
+						fs = append(fs, e1.Finding{Key: "not-linearizable", Detail: fmt.Sprintf("%+v", h.ops)})
+					}
+					live := 0
+					for _, op := range []*optracker.Operation{opA, opB} {
+						if op != nil && !op.Cancelled() {
+							live++
+						}
+					}
+					if live > 1 {
+						fs = append(fs, e1.Finding{Key: "two-live-operations-for-one-cid", Detail: "both calls got an operation and neither has been cancelled: one of them is no longer in the table and runs on unobserved"})
+					}
+					return fmt.Sprintf("created=%v,%v live=%d", opA != nil, opB != nil, live), fs
+				},
+			}
+		}
+	}
+	register("optracker-track-track-same-cid", 2, 3, mk(optracker.OperationPin))
+	register("optracker-track-untrack-same-cid", 2, 3, mk(optracker.OperationUnpin))
+}
